@@ -32,6 +32,8 @@ t2("forin-map-del", 'm = {"a": 1, "b": 2, "c": 3}\nfor k, v in m {\n delete(m, "
 t2("forin-map-del-use", 'm = {"a": 1, "b": 2, "c": 3}\nr = ', '\nfor k, v in m {\n delete(m, "a")\n delete(m, "b")\n delete(m, "c")\n r += v\n r = r ', ' v\n}')
 t2("forin-slice-shrink", 'l = [1, 2, 3]\nfor v in l {\n l = l[0:1]\n x = [v, ', ', ', ']\n}')
 t2("forin-over-del", 'for k, v in ', ' {\n delete(', ', k)\n x = [k, v]\n}')
+t2("member-assign-A", "", ".A = ", ""); t2("elem-member-assign", "[", "][0].A = ", ""); t2("map-member-assign", "{\"k\": ", "}.k.A = ", ""); t2("call-member-assign", "id(", ").A = ", "")
+t2("list-var-member-assign", "q = [", "]\nq[0].A = ", "\nq"); t2("map-var-member-assign", "q = {\"k\": ", "}\nq.k.A = ", "\nq"); t2("elem-member-assign-B", "[", "][0].B = ", ""); t2("elem-elem-assign", "[", "][0][0] = ", "")
 t2("elem0-assign", "", "[0] = ", ""); t2("forin-single", "for v in ", " {\n x = [v, ", "]\n break\n}")
 t2("make-type", "make(type X, ", ")\nmake(X)\n", ""); t2("spread-fv", "vfv(", ", ", "...)"); t2("fn-arg-go", "vg(", ") + vg(", ")"); t2("addr-deref", "*(&", ") + ", "")
 
